@@ -1,0 +1,12 @@
+//go:build verif
+
+package time
+
+// VerifHook: see the avro package.
+var VerifHook func(point string)
+
+func verifPoint(p string) {
+	if h := VerifHook; h != nil {
+		h(p)
+	}
+}
